@@ -124,6 +124,28 @@ impl encode::Write for Cap {
     }
 }
 
+/// a sink that accepts `budget` bytes and then fails like a full device; used for the history
+/// preludes: an encode's output must not depend on earlier (failed) encodes on the same thread
+pub struct FailSink {
+    pub budget: usize,
+}
+
+impl io::Write for FailSink {
+    fn write(&mut self, buf: &[u8]) -> io::Result<usize> {
+        if self.budget == 0 {
+            return Err(io::Error::new(io::ErrorKind::Other, "device full"));
+        }
+        let n = buf.len().min(self.budget);
+        self.budget -= n;
+        Ok(n)
+    }
+    fn flush(&mut self) -> io::Result<()> {
+        Ok(())
+    }
+}
+
+impl encode::Write for FailSink {}
+
 fn mask_digits(s: &str) -> String {
     s.chars().map(|c| if c.is_ascii_digit() { '#' } else { c }).collect()
 }
@@ -235,6 +257,12 @@ impl Scan {
     fn arg(&mut self) -> Result<Vec<MP>, String> {
         let mut v = vec![];
         loop {
+            // repair of F6a (185a57e): a doubled `))` inside an argument is the character `)`
+            if self.peek() == Some(')') && self.s.get(self.i + 1) == Some(&')') {
+                self.i += 2;
+                v.push(MP::Text(")".into()));
+                continue;
+            }
             if self.consume(')') {
                 return Ok(v);
             }
@@ -534,6 +562,27 @@ fn run_in_thread(c: &Case) -> String {
     for (k, v) in &c.mdc {
         log_mdc::insert(k.clone(), v.clone());
     }
+    // history preludes: the same encoder, on this thread, into sinks that fail after 0, 1, 3, …
+    // bytes, with a different message; whatever they leave behind must not show in the encode below
+    let stale = format!("STALE<{}>", c.message);
+    for budget in [0usize, 1, 3, 7, 15, 40, 100] {
+        let mut sink = FailSink { budget };
+        let _ = guarded(AssertUnwindSafe(|| {
+            encoder
+                .encode(
+                    &mut sink,
+                    &log::Record::builder()
+                        .level(level_of(c.level))
+                        .target(&c.target)
+                        .module_path(c.module.as_deref())
+                        .file(c.file.as_deref())
+                        .line(c.line)
+                        .args(format_args!("{}", stale))
+                        .build(),
+                )
+                .is_ok()
+        }));
+    }
     let encode_once = || -> (Result<bool, String>, Cap) {
         let mut cap = Cap::default();
         let r = guarded(AssertUnwindSafe(|| {
@@ -821,6 +870,9 @@ pub fn gen(rng: &mut Rng, n: usize, thorough: bool, emit: &mut dyn FnMut(String)
         "a}b", "a(b", "a)b", "a\\b", "a\\", "{m", "{m:5", "{m(", "{m(x", "{x}", "{m(x)}", "{d(a)(b)(c)}", "{d(%Y)(cet)}", "{d(%Y)()}",
         "{d(%Y)({m})}", "{X}", "{X()}", "{X({m})}", "{X(k)()}", "{X(k)({m})}", "{X(a)(b)(c)}", "{h}", "{h(a)(b)}", "{()()}", "{}", "{thread_id}",
         "{X(a}b)}", "{X(k)(a}b)}", "{d(a}b)}", "{d({m})}", "pre {l} {x} post {m}", "{l}{m(}tail", "{h(a{x}b)}", "{(a}b):5}",
+        // `))` inside arguments (F6a repaired): runs of 2..=6 closing parentheses, even and odd
+        "{(a))}", "{(a)))}", "{(a))))}", "{(a)))))}", "{(a))))))}", "{())}", "{()))}", "{h(a))b)}", "{h(a)))b}", "{X(k)))}",
+        "{X(k)))(d)))}", "{d(%Y)))(utc)}", "{d(%Y))(utc)}", "{(a\\)))}", "{({(x)))})}", "{({(x))})}", "{m()))}", "{(a))",
     ] {
         emit(Case::simple(p).line());
         emit(Case::simple(&format!("lit {{l}} {}", p)).line());
